@@ -36,24 +36,37 @@ func (g GoResult) Panic() string {
 	return ""
 }
 
-// batchCache returns a build cache used only for the reference batches. Every batch consists of
-// hundreds of packages that are never built again, so the cache is wiped every 30 batches instead of
-// growing without bound (the shared default cache reached 124 GB in one day of sweeps).
+// batchCache returns a build cache used only for the reference batches of THIS process. Every batch
+// consists of hundreds of packages that are never built again, so the cache is wiped every 30
+// batches instead of growing without bound (the shared default cache reached 124 GB in one day of
+// sweeps). Caches left behind by earlier processes are removed when they are older than two hours.
+var batchCacheMu sync.Mutex
+var batchCacheN int
+
 func batchCache() string {
-	dir := filepath.Join(os.TempDir(), "verif-batch-gocache")
-	os.MkdirAll(dir, 0o755)
-	cnt := filepath.Join(dir, "verif-batches")
-	n := 0
-	if b, err := os.ReadFile(cnt); err == nil {
-		n, _ = strconv.Atoi(strings.TrimSpace(string(b)))
+	batchCacheMu.Lock()
+	defer batchCacheMu.Unlock()
+	dir := filepath.Join(os.TempDir(), fmt.Sprintf("verif-batch-gocache-%d", os.Getpid()))
+	if batchCacheN == 0 {
+		if old, err := filepath.Glob(filepath.Join(os.TempDir(), "verif-batch-gocache-*")); err == nil {
+			for _, d := range old {
+				if st, err := os.Stat(d); err == nil && d != dir && time.Since(st.ModTime()) > 2*time.Hour {
+					os.RemoveAll(d)
+				}
+			}
+		}
 	}
-	if n >= 30 {
+	if batchCacheN%30 == 0 {
 		os.RemoveAll(dir)
-		os.MkdirAll(dir, 0o755)
-		n = 0
 	}
-	os.WriteFile(cnt, []byte(strconv.Itoa(n+1)), 0o644)
+	batchCacheN++
+	os.MkdirAll(dir, 0o755)
 	return dir
+}
+
+// CleanBatchCache removes this process's batch cache (call it before exiting).
+func CleanBatchCache() {
+	os.RemoveAll(filepath.Join(os.TempDir(), fmt.Sprintf("verif-batch-gocache-%d", os.Getpid())))
 }
 
 var mainRe = regexp.MustCompile(`(?m)^func main\(\)`)
